@@ -266,6 +266,7 @@ def lake_build(targets: list[str], regen=None) -> BuildResult:
                 # file …): the tie is broken, which is not by itself a violation — the check goes on with the data modules
                 # of the last successful regeneration and searches for a failing input
                 regen_error = f"{type(e).__name__}: {str(e)[:300]}"
+            regen_ops_index()   # the regeneration may have written new Driver/Ops/Src*.lean
         p = subprocess.run(
             ["lake", "build", *targets], cwd=LEAN, capture_output=True, text=True
         )
